@@ -14,7 +14,8 @@ LEVEL_TEXT = ("Three complete families are rendered from a reference model and p
               "table of 1..3 (thorough 1..5: 321 512 tables) columns over 12 column shapes covering every last-token class, in up to 4 layouts; (C) every script of "
               "1..3 (thorough 4) tables over 6 tables, with and without schema, with and without ';'. The five attributes the property names are compared per column."
               " Family C is also run behind a comment line that holds a lone apostrophe; every default form meets every type form."
-              " Defect hunt: keyword-named referenced tables (REFERENCES tag(x) / comment / order / options / type), signed decimal / double-parenthesised / prefixed-literal defaults (known findings), multi-line tables without ';'.")
+              " Defect hunt: keyword-named referenced tables (REFERENCES tag(x) / comment / order / options / type), signed decimal / double-parenthesised / prefixed-literal defaults (known findings), multi-line tables without ';'."
+              " Wave 6: the mixed-terminator script (an unterminated statement ended by a complete one-line ';'-terminated statement).")
 LEVEL_NOTE = ("Small-scope bounds: <=5 options, <=5 columns, <=4 tables; type and default alphabets are fixed lists. The reference model is "
               "written from the property statement, not from the code.")
 RULE = ("case = a table/script rendered from the reference model; expected columns known by construction; non-trivial = at least one "
